@@ -760,8 +760,10 @@ fn reverse_ask(
         Some(cancel_size) => cancel_size,
     };
 
-    // error if cancel size is not multiple of size_increment
-    if (effective_cancel_size.u128() % contract_info.size_increment.u128()).ne(&0) {
+    // error if a requested partial cancel size is not multiple of size_increment
+    if cancel_size.is_some()
+        && (effective_cancel_size.u128() % contract_info.size_increment.u128()).ne(&0)
+    {
         return Err(ContractError::InvalidFields {
             fields: vec![String::from("size")],
         });
@@ -879,8 +881,10 @@ fn reverse_bid(
         Some(cancel_size) => cancel_size,
     };
 
-    // error if cancel size is not multiple of size_increment
-    if (effective_cancel_size.u128() % contract_info.size_increment.u128()).ne(&0) {
+    // error if a requested partial cancel size is not multiple of size_increment
+    if cancel_size.is_some()
+        && (effective_cancel_size.u128() % contract_info.size_increment.u128()).ne(&0)
+    {
         return Err(ContractError::InvalidFields {
             fields: vec![String::from("size")],
         });
